@@ -522,7 +522,9 @@ def main(run):
         gen_corr = os.path.exists(os.path.join(vlib.COQ, "Corr", "C07_gen.vo")) and gen_proved
         run.trusted += ["translator harness/c07_py2coq.py with its signature table (parameter types, which parameter is the array mutated in "
                         "place, the fuel of `while` loops / of the recursion and the value an exhausted fuel reads as - the conventions of the "
-                        "hand model) and the run-time library coq/Model/C07_GenRt.v; negative indices are not wrapped; validated on every run "
+                        "hand model; K = math.sqrt(N) as isqrt; ints next to floats through their float value; list.sort() / sorted() as insertion sort; "
+                        "numpy.zeros / numpy.array / array-op-scalar as declared primitives; the interface of the two branch units of selSPEA2) "
+                        "and the run-time library coq/Model/C07_GenRt.v; negative indices are not wrapped; validated on every run "
                         "because the regenerated definitions are evaluated against the implementation on the recorded calls"]
     if translated and not refused:
         tie = "tie: regenerated (%d/%d functions translated from the working-tree source%s)" % (
